@@ -5,9 +5,10 @@
     hist_cast G g                     → g                       (same-scalar cast)
     hist_liftproj G g                 → lift∘project round trip (SO2, SE2)
     hist_ode G id h g v               → one fixed step of stepper `id` through the adaptor model
-    hist_run G <program words>        → `Hist.step` folded over the program; destination register after every op
+    hist_run G <program> <checkpts>   → `Hist.step` folded over the program (teacher-forced with the implementation's
+                                        checkpoints); destination register after every op
   audit ops (prec f64a | f32a), exact oracle (rationals / 320-bit fixed point):
-    hist_step G code ins… outs…       → per-op ε: [matrix error, norm² error]
+    hist_step G code ins… outs…       → per-op ε: [matrix error, norm² error, largest operand constraint defect]
     hist_audit G <program> <checkpts> → per checkpoint [err, defect, min q_w, scale, finite, k]
     hist_odefinal G id n h x0 v xf    → [err vs x0·exp(n·h·v^), defect, min q_w, finite]
     hist_odestage G t x0 v xs         → same with T = t
@@ -141,14 +142,17 @@ def max1 (a : Rat) : Rat := if a < 1 then 1 else a
 def rmax (a b : Rat) : Rat := if a < b then b else a
 
 -- ---------------------------------------------------------------- per-step audit
-/-- `hist_step G code ins… outs…` → [matrix error relative to max(1, ‖operands‖, ‖exact‖), norm² error] -/
+/-- `hist_step G code ins… outs…` → [matrix error relative to max(1, ‖operands‖, ‖exact‖), norm² error,
+    largest constraint defect |‖q‖²−1| among the element operands] -/
 def stepAudit (d : GDesc) (x : Array Rat) : Except String (Array Float) := do
   let ps := partsOf d
   let rep := ps.foldl (fun s p => s + p.rep) 0
   let dof := ps.foldl (fun s p => s + p.dof) 0
   let code := (x.getD 0 0).num.natAbs
   let b := 1
-  let finish (exact : Array BMat) (outOff : Nat) (opScale : Rat) (expectN : Array Rat) : Except String (Array Float) := do
+  let opDefect (offs : List Nat) : Rat :=
+    offs.foldl (fun m o => rmax m ((sqns ps x o).foldl (fun m' n => rmax m' (n - 1).abs) 0)) 0
+  let finish (exact : Array BMat) (outOff : Nat) (opScale : Rat) (expectN : Array Rat) (elemOffs : List Nat := []) : Except String (Array Float) := do
     let dist := distB ps x outOff exact
     let sc := max1 (rmax opScale (maxAbsB exact))
     let got := sqns ps x outOff
@@ -157,13 +161,13 @@ def stepAudit (d : GDesc) (x : Array Rat) : Except String (Array Float) := do
       let e := expectN.getD i 1
       let v := if e == 0 then (got[i]! - e).abs else ((got[i]! - e) / e).abs
       if v > ne then ne := v
-    return #[ratToFloat (dist / sc), ratToFloat ne]
+    return #[ratToFloat (dist / sc), ratToFloat ne, ratToFloat (opDefect elemOffs)]
   match code with
   | 0 =>
     if x.size != b + 3 * rep then throw "arity"
     let A := elemB ps x b; let B := elemB ps x (b + rep)
     let na := sqns ps x b; let nb := sqns ps x (b + rep)
-    finish (mulB A B) (b + 2 * rep) (rmax (maxAbsB A) (maxAbsB B)) ((na.zip nb).map (fun (p, q) => p * q))
+    finish (mulB A B) (b + 2 * rep) (rmax (maxAbsB A) (maxAbsB B)) ((na.zip nb).map (fun (p, q) => p * q)) [b, b + rep]
   | 1 =>
     if x.size != b + 2 * rep then throw "arity"
     let A := elemB ps x b
@@ -175,24 +179,24 @@ def stepAudit (d : GDesc) (x : Array Rat) : Except String (Array Float) := do
       let got := sqns ps x (b + rep)
       let ex := (na.zip got).map (fun (n, g) =>
         if n == 0 then n else if (g - n).abs ≤ (g - 1 / n).abs then n else 1 / n)
-      finish Ai (b + rep) (maxAbsB A) ex
+      finish Ai (b + rep) (maxAbsB A) ex [b]
   | 2 =>
     if x.size != b + dof + rep then throw "arity"
     finish (expB ps x b) (b + dof) 1 ((sqns ps x (b + dof)).map (fun _ => 1))
   | 3 =>
     if x.size != b + rep + dof + rep then throw "arity"
     let A := elemB ps x b
-    finish (mulB A (expB ps x (b + rep))) (b + rep + dof) (maxAbsB A) (sqns ps x b)
+    finish (mulB A (expB ps x (b + rep))) (b + rep + dof) (maxAbsB A) (sqns ps x b) [b]
   | 6 | 7 =>
     if x.size != b + 2 * rep then throw "arity"
     let A := elemB ps x b
-    finish A (b + rep) (maxAbsB A) (sqns ps x b)
+    finish A (b + rep) (maxAbsB A) (sqns ps x b) [b]
   | 9 =>
     -- ins: id h g v
     if x.size != b + 2 + rep + dof + rep then throw "arity"
     let h := x.getD (b + 1) 0
     let A := elemB ps x (b + 2)
-    finish (mulB A (expB ps x (b + 2 + rep) h)) (b + 2 + rep + dof) (maxAbsB A) (sqns ps x (b + 2))
+    finish (mulB A (expB ps x (b + 2 + rep) h)) (b + 2 + rep + dof) (maxAbsB A) (sqns ps x (b + 2)) [b + 2]
   | _ => throw "unknown-step-code"
 
 -- ---------------------------------------------------------------- odeint law
